@@ -242,6 +242,8 @@ structure St where
   sent : List ((Nat × String) × Nat) := []     -- escrow in
   returned : List ((Nat × String) × Nat) := [] -- escrow out
   legacy : Bool := false
+  variant : String := ""
+  height : Nat := 0
 
 def addInt (m : List (String × Int)) (k : String) (v : Int) : List (String × Int) :=
   match m.find? (·.1 = k) with
@@ -285,15 +287,22 @@ def run (lines : Array String) : Driver.Report := Id.run do
       r := r.addMonitor "dump_parse" n line "cannot parse the implementation's state dump"
     match ws with
     | ["ledger", "reset", variant] =>
-      let g := genesis (variant = "legacy")
-      st := { model := some g, legacy := variant = "legacy", valSet := g.vals }
+      let g := genesis (variant = "legacy" || variant = "upg")
+      st := { model := some g, legacy := variant = "legacy", valSet := g.vals, variant := variant,
+              height := if variant = "upg" then 0 else 1 }
       modelOut := s!"ok - | {dump g}"
       r := r.bump s!"reset_{variant}"
     | ["ledger", "begin"] =>
       match st.model with
       | some m =>
+        let h := st.height + 1
+        -- the upgrade-crossing variant: Aspen at height 4, Blackburn at 6 (pre_execute_transactions)
+        let m := if st.variant = "upg" && h = 4 then
+            aspenUpgrade m [("BTC/USD", 0), ("ETH/USD", 1)] [("BTC/USD", 8), ("ETH/USD", 8)]
+          else if st.variant = "upg" && h = 6 then blackburnUpgrade m else m
         modelOut := s!"ok - | {dump m}"
-        st := { st with blockStart := st.ipre, blockMint := [], blockFeeEvents := [], blockDepEvents := 0, blockValOps := [] }
+        st := { st with model := some m, height := h, blockStart := st.ipre, blockMint := [], blockFeeEvents := [],
+                        blockDepEvents := 0, blockValOps := [] }
       | none => pure ()
     | "ledger" :: "tx" :: signer :: nonce :: acts :: [] =>
       match st.model, nonce.toNat?, parseActions acts with
